@@ -552,7 +552,7 @@ pub fn gen_c12(rng: &mut Rng, thorough: bool) -> Vec<Tagged> {
     let mut o = GenOpts::default();
     o.wkind = 2;
     let reps = if thorough { 120 } else { 20 };
-    let sizes = [1usize, 2, 63, 64, 65, 127, 128, 129, 200];
+    let sizes = [1usize, 2, 63, 64, 65, 127, 128, 129, 200, 191, 192, 193, 256, 257, 300];
     for r in 0..reps {
         let softmax = r % 2 == 0;
         if let Some((mut spec, input, outsh)) = train_net(rng, &o, false, softmax) {
